@@ -225,39 +225,10 @@ func (w *World) Goroutines() int {
 // threads with vs.Go) under the schedule given by devs, and finally calls observe with the
 // scheduler passive.
 func runWorld(t *testing.T, cfg WorldCfg, devs map[int]int, body func(w *World), observe func(w *World) any) (o Outcome) {
-	defer func() {
-		if r := recover(); r != nil {
-			if s := fmt.Sprint(r); !strings.Contains(s, "deadlock: main bubble") && !strings.Contains(s, "blocked goroutines remain") {
-				o.Panic = s
-			}
-		}
-	}()
-	synctest.Test(t, func(t *testing.T) {
-		defer func() {
-			if r := recover(); r != nil {
-				buf := make([]byte, 1<<13)
-				buf = buf[:runtime.Stack(buf, false)]
-				o.Panic = fmt.Sprintf("%v\n%s", r, buf)
-				vs.Abort()
-			}
-		}()
-		w := &World{Cfg: cfg, Start: time.Now(), bubble: bubbleID()}
-		diam.MemReset()
-		dict.ResetDefault()
-		mongoapi.Reset()
-		vos.Reset()
-		notesMu.Lock()
-		notes = nil
-		notesMu.Unlock()
-		vs.S.Horizon = 5 * time.Minute
-		if cfg.HorizonS > 0 {
-			vs.S.Horizon = time.Duration(cfg.HorizonS) * time.Second
-		}
-		vs.S.Delay = time.Duration(cfg.DelayMs) * time.Millisecond
-		vs.S.StepCap = cfg.StepCap
-		vs.Reset(devs)
+	var w *World
+	o = runWorldWith(t, cfg, devs, func(ctx context.Context) {
+		w = &World{Cfg: cfg, Start: time.Now(), bubble: bubbleID()}
 		factory.ChfConfig = baseConfig(cfg)
-		ctx, cancel := context.WithCancel(context.Background())
 		vs.Go("T0", func() {
 			resetGlobalContext()
 			chf_context.Init()
@@ -287,19 +258,63 @@ func runWorld(t *testing.T, cfg WorldCfg, devs map[int]int, body func(w *World),
 			w.Router = sbi.VerifRouter(srv)
 			body(w)
 		})
+	}, func() any {
+		if observe != nil && w != nil {
+			return observe(w)
+		}
+		return nil
+	})
+	return
+}
+
+// runWorldWith resets every double, runs start (which must create the driver threads with vs.Go) inside a fresh
+// synctest bubble under the schedule devs, then observe with the scheduler passive, then tears everything down.
+func runWorldWith(t *testing.T, cfg WorldCfg, devs map[int]int, start func(ctx context.Context), observe ...func() any) (o Outcome) {
+	defer func() {
+		if r := recover(); r != nil {
+			if s := fmt.Sprint(r); !strings.Contains(s, "deadlock: main bubble") && !strings.Contains(s, "blocked goroutines remain") {
+				o.Panic = s
+			}
+		}
+	}()
+	synctest.Test(t, func(t *testing.T) {
+		defer func() {
+			if r := recover(); r != nil {
+				buf := make([]byte, 1<<13)
+				buf = buf[:runtime.Stack(buf, false)]
+				o.Panic = fmt.Sprintf("%v\n%s", r, buf)
+				vs.Abort()
+			}
+		}()
+		diam.MemReset()
+		dict.ResetDefault()
+		mongoapi.Reset()
+		vos.Reset()
+		notesMu.Lock()
+		notes = nil
+		notesMu.Unlock()
+		vs.S.Horizon = 5 * time.Minute
+		if cfg.HorizonS > 0 {
+			vs.S.Horizon = time.Duration(cfg.HorizonS) * time.Second
+		}
+		vs.S.Delay = time.Duration(cfg.DelayMs) * time.Millisecond
+		vs.S.StepCap = cfg.StepCap
+		vs.Reset(devs)
+		ctx, cancel := context.WithCancel(context.Background())
+		start(ctx)
 		o.Res = vs.Run()
 		o.Points = vs.S.Points
 		o.Hashes = vs.S.Hashes
 		vs.Passive()
 		o.ThPanics = vs.Panics()
-		if observe != nil {
+		for _, ob := range observe {
 			func() {
 				defer func() {
 					if r := recover(); r != nil {
 						o.Panic = fmt.Sprintf("observe panic: %v", r)
 					}
 				}()
-				o.Obs = observe(w)
+				o.Obs = ob()
 			}()
 		}
 		vs.Abort()
